@@ -10,7 +10,15 @@
 
    PARTIAL BY NATURE, and labelled so: (1) use-after-free of NODE memory cannot be
    exhibited by this model, in which a child node is contained in its parent's slot
-   rather than referred to by an address into a heap that could be freed; (2) the
+   rather than referred to by an address into a heap that could be freed (what IS proved
+   about the node blocks - C/NodeMem.v, last section of this file - is the accounting:
+   node_destroy instrumented with the log of the addresses given to cache_aligned_free
+   frees every node of the tree exactly once, nothing else, each node after its whole
+   subtree, and before the tree dies the nodes are exactly the blocks node_create handed
+   out; the implementation side is tied to it by the node-memory oracle of
+   harness/c/c_harness.py when /repo carries the counter hook build/c_nodes_hook.diff;
+   the temporary PyMem_Malloc arrays of the split paths are plain local lists in the
+   model, which has no allocation events for them: only that oracle counts them); (2) the
    allocation protocol of the tree OBJECT (tp_alloc / tp_free / GC tracking, what makes a
    Python subclass instance — like the package's wrapper — safe to create and destroy)
    lives in CPython and is not modelled.  Both are covered only by the correspondence
@@ -19,11 +27,12 @@
    under AddressSanitizer in the thorough tier.
 
    This file contains only pinned statements, each closed by a lemma of coq/C/.
-   OBLIGATIONS: C13_no_out_of_bounds C13_rc_balanced C13_all_released C13_release_from_any_state C13_dealloc C13_capacity_rejected C13_capacity_accepted_range C13_capacity_truncation_refuted C13_legacy_leaks_refuted C13_nonvacuous C13_capacity_stored_exactly *)
+   OBLIGATIONS: C13_no_out_of_bounds C13_rc_balanced C13_all_released C13_release_from_any_state C13_dealloc C13_capacity_rejected C13_capacity_accepted_range C13_capacity_truncation_refuted C13_legacy_leaks_refuted C13_nonvacuous C13_capacity_stored_exactly C13_free_log_conservative C13_free_log_conservative_dealloc C13_dealloc_free_log C13_no_double_free_no_node_leak C13_children_freed_first C13_freed_addresses_are_nodes C13_every_node_address_has_a_node C13_node_ids_allocated C13_reachable_node_ids C13_reachable_dealloc_node_memory C13_finish_node_memory C13_node_memory_nonvacuous *)
 From Coq Require Import List ZArith NArith Bool.
 From BPT Require Import Common.Base Common.AMap Rust.Tree C.Node C.Tree C.Run C.Abs C.PInv
   C.Spec C.StepDefs C.TreeProofs C.Dealloc C.StepAll C.Examples C.Legacy.
-From BPT Require Import Extra.CExtra.
+From BPT Require Import Extra.CExtra C.NodeMem C.NodeMemProofs.
+From Coq Require Import Permutation.
 Import ListNotations.
 
 (* For every history, at every capacity given to the constructor: no call answers an
@@ -103,3 +112,107 @@ Theorem C13_capacity_stored_exactly : forall (capacity : Z) (t : ctree), tree_in
   Z.of_nat (tcap t) = capacity /\ ncap (root t) = tcap t /\ nk (root t) = 0 /\
   length (data (root t)) = 2 * tcap t.
 Proof. exact CExtra.capacity_stored_exactly. Qed.
+
+(* ------------------------------------------------------------------ *)
+(* Node-memory accounting (C/NodeMem.v, C/NodeMemProofs.v): the BPlusNode blocks themselves.
+   [node_ids n] = the addresses of all nodes of the tree below n;
+   [node_destroy_g] / [tree_dealloc_g] = node_destroy / BPlusTree_dealloc (tp_clear, then
+   node_destroy) with the log of the addresses passed to cache_aligned_free, in call order. *)
+
+(* the instrumentation is conservative: forgetting the log gives the functions the other
+   theorems of this file are about - on every input, including the failing ones *)
+Theorem C13_free_log_conservative :
+  forall (fuel : nat) (st : rcmap * list N) (n : cnode),
+    res_fst (node_destroy_g fuel st n) = node_destroy fuel (fst st) n.
+Proof. exact node_destroy_g_conservative. Qed.
+
+Theorem C13_free_log_conservative_dealloc :
+  forall (t : ctree) (rc : rcmap), res_fst (tree_dealloc_g t rc) = tree_dealloc t rc.
+Proof. exact tree_dealloc_g_conservative. Qed.
+
+(* BPlusTree_dealloc on a tree object satisfying the invariant: the log is the children-first
+   enumeration of the node addresses *)
+Theorem C13_dealloc_free_log :
+  forall (t : ctree) (rc : rcmap), CInv t ->
+    exists rc', tree_dealloc_g t rc = Ok (rc', free_order (root t)) /\ tree_dealloc t rc = Ok rc'.
+Proof. exact tree_dealloc_g_ok. Qed.
+
+(* no block is freed twice, none is leaked, nothing else is freed *)
+Theorem C13_no_double_free_no_node_leak :
+  forall (t : ctree) (rc rc' : rcmap) (fr : list N), CInv t ->
+    tree_dealloc_g t rc = Ok (rc', fr) ->
+    NoDup fr /\ Permutation fr (node_ids (root t)).
+Proof. exact dealloc_frees_each_node_once. Qed.
+
+(* in the order of the cache_aligned_free calls every node comes after all other nodes of
+   its subtree, and nowhere else: a node is read only by the node_destroy call that ends by
+   freeing it, so no block is read after it was freed *)
+Theorem C13_children_freed_first :
+  forall (t : ctree) (rc rc' : rcmap) (fr : list N) (m : cnode), CInv t ->
+    tree_dealloc_g t rc = Ok (rc', fr) -> subnode m (root t) ->
+    exists l1 l2 : list N, fr = l1 ++ (nid m :: l2) /\
+      (forall x, In x (node_ids m) -> x <> nid m -> In x l1) /\
+      ~ In (nid m) l1 /\ ~ In (nid m) l2.
+Proof. exact dealloc_children_first. Qed.
+
+Theorem C13_freed_addresses_are_nodes :
+  forall (t : ctree) (rc rc' : rcmap) (fr : list N) (x : N), CInv t ->
+    tree_dealloc_g t rc = Ok (rc', fr) -> In x fr ->
+    In x (node_ids (root t)) /\ x <> 0%N /\ (x < next_id t)%N.
+Proof. exact dealloc_frees_only_nodes. Qed.
+
+(* the quantifier "subnode m (root t)" reaches every node address *)
+Theorem C13_every_node_address_has_a_node :
+  forall (cap : nat) (n : cnode), wf cap n ->
+    forall x, In x (node_ids n) -> exists m, subnode m n /\ nid m = x.
+Proof. exact wf_subnode_all. Qed.
+
+(* allocation side: distinct, non-NULL, below the allocator's next address *)
+Theorem C13_node_ids_allocated :
+  forall (t : ctree), CInv t ->
+    NoDup (node_ids (root t)) /\ ~ In 0%N (node_ids (root t)) /\
+    (forall x, In x (node_ids (root t)) -> (x < next_id t)%N).
+Proof. exact node_ids_allocated. Qed.
+
+(* ... and in every reachable state of every history, for the tree and for the copy: the
+   nodes are EXACTLY the blocks node_create handed out for that tree object (addresses
+   1 .. next_id-1): no node is freed, or lost, before the tree dies *)
+Theorem C13_reachable_node_ids :
+  forall (capacity : Z) (ops : list op) (t : ctree),
+    let s := fst (run (fst (st_init capacity)) ops) in
+    st_tree s = Some t \/ st_copy s = Some t ->
+    NoDup (node_ids (root t)) /\ ~ In 0%N (node_ids (root t)) /\
+    (forall x, In x (node_ids (root t)) -> (x < next_id t)%N) /\
+    length (node_ids (root t)) = N.to_nat (next_id t) - 1 /\
+    Permutation (node_ids (root t)) (nrange 1 (next_id t)).
+Proof. exact reachable_node_ids. Qed.
+
+(* deallocating the tree or the copy of any reachable state (this is also what WCopy does
+   to the previous copy in the middle of a history) *)
+Theorem C13_reachable_dealloc_node_memory :
+  forall (capacity : Z) (ops : list op) (t : ctree) (rc : rcmap),
+    let s := fst (run (fst (st_init capacity)) ops) in
+    st_tree s = Some t \/ st_copy s = Some t ->
+    exists rc' fr, tree_dealloc_g t rc = Ok (rc', fr) /\ tree_dealloc t rc = Ok rc' /\
+      NoDup fr /\ Permutation fr (node_ids (root t)) /\
+      length fr = N.to_nat (next_id t) - 1 /\
+      (forall m, subnode m (root t) ->
+         exists l1 l2 : list N, fr = l1 ++ (nid m :: l2) /\
+           (forall x, In x (node_ids m) -> x <> nid m -> In x l1) /\
+           ~ In (nid m) l1 /\ ~ In (nid m) l2).
+Proof. exact reachable_dealloc_node_memory. Qed.
+
+(* the teardown at the end of every history, with the free logs of the copy and of the tree *)
+Theorem C13_finish_node_memory :
+  forall (capacity : Z) (ops : list op),
+    let s := fst (run (fst (st_init capacity)) ops) in
+    exists rc frc frt, finish_g s = Ok (rc, frc, frt) /\ finish s = Ok rc /\
+      Permutation frc (match st_copy s with Some c => node_ids (root c) | None => [] end) /\
+      Permutation frt (match st_tree s with Some t => node_ids (root t) | None => [] end) /\
+      NoDup frc /\ NoDup frt.
+Proof. exact finish_g_node_memory. Qed.
+
+(* a three-level tree (root branch, two branches, seven leaves, the first one empty):
+   addresses, free log, checks, and the teardown of a whole history - evaluated in Coq *)
+Definition C13_node_memory_nonvacuous :=
+  (ex_three_levels, ex_node_ids, ex_free_log, ex_free_log_checks, ex_finish_logs).
